@@ -246,7 +246,7 @@ KINDS = ["box", "extrude", "revolve", "cylinder", "semicylinder", "frustum", "el
          "chain_a", "chain_b", "chain_c", "expand", "fill_contract", "ring_chain"]
 
 
-def record(ctx: Ctx, rid: int, kind: str, rng: random.Random) -> Optional[dict]:
+def record(ctx: Ctx, rid: int, kind: str, rng: random.Random, write: bool = True) -> Optional[dict]:
     import classy_blocks as cb
 
     sc = Scene(rng)
@@ -327,7 +327,8 @@ def record(ctx: Ctx, rid: int, kind: str, rng: random.Random) -> Optional[dict]:
     path = os.path.join(ctx.tmp, "c11.bmd")
     write_ok, err_name = True, ""
     try:
-        mesh.write(path)
+        if write:
+            mesh.write(path)
     except Exception as err:  # pylint: disable=broad-except
         write_ok, err_name = False, type(err).__name__
     ctx.evaluated(f"{kind}:{len(blocks)}")
@@ -346,6 +347,11 @@ def run(ctx: Ctx) -> None:
             r = record(ctx, len(recs) + 1, kind, rng)
             if r is not None:
                 recs.append(r)
+            # further placements, sizes and orientations of the same kind: assembled and judged, not written
+            for _k in range(3):
+                r = record(ctx, len(recs) + 1, kind, rng, write=False)
+                if r is not None:
+                    recs.append(r)
     if not recs:
         raise MachineryError("no shape record")
     path = os.path.join(ctx.tmp, "blocking.json")
